@@ -31,7 +31,7 @@ mod asset {
     }
 }
 
-const UNTIL: u32 = 500;
+const UNTIL: u32 = 90_000;   // far beyond any run, time_passes() included
 
 fn limbs(v: i128) -> Value {
     let mut m = Vec::new();
@@ -214,6 +214,7 @@ fn main() {
                 let mut sys = Sys::new(&users, off, &funds);
                 t.reset(sys.reset_event(&funds));
                 for _ in 0..len {
+                    time_passes(&sys.e, &mut r, 700);
                     let (a, sbal, _sup) = sys.raw();
                     let oi = r.gen_range(0..3usize);
                     let own = users[oi];
